@@ -45,7 +45,7 @@ ASSUMPTIONS = [
 DELETABLE = ()
 
 KINDS = ("plain", "plain-nosuspend", "stream", "mqtt")
-FAULTS = ("none", "connect", "body", "disconnect", "body+disconnect", "connect-timeout", "cancel-body")
+FAULTS = ("none", "connect", "body", "disconnect", "body+disconnect", "connect-timeout", "cancel-body", "disconnect-hang")
 FILES = ("missing", "empty", "registry", "big")
 BIG_REGISTRY = {str(i): {"node_id": i, "node_type": 17, "protocol_version": "2.0", "sketch_name": f"node {i}", "sketch_version": "1", "battery_level": i % 100, "heartbeat": 0, "sleeping": False, "children": {"1": {"child_id": 1, "child_type": 6, "description": "", "values": {"0": str(i)}}}} for i in range(1, 61)}
 FILE_REGISTRY = {"3": {"node_id": 3, "node_type": 17, "protocol_version": "2.2.0", "sketch_name": "from file", "sketch_version": "1", "battery_level": 50,
@@ -80,7 +80,7 @@ def enumerate_cases(tier: str):
             for k, T in ((0, None), (9, None), (2, 901)):
                 yield {"kind": kind, "fault": fault, "file": "registry", "k": k, "T": T, "mutate": True, "bystander": True}
     for kind, fault, initial in itertools.product(KINDS, FAULTS, FILES):
-        if kind == "plain-nosuspend" and fault == "connect-timeout":
+        if kind == "plain-nosuspend" and fault in ("connect-timeout", "disconnect-hang"):
             continue
         if initial == "big" and (fault not in ("none", "cancel-body") or kind not in ("plain", "stream")):
             continue
@@ -121,7 +121,7 @@ def strategy(tier: str):
             "bystander": st.sampled_from((False, False, True)),
             "new_loop": st.sampled_from((False, False, True)),
         }
-    ).filter(lambda c: c["kind"] == "plain" or (c["kind"] == "plain-nosuspend" and c["fault"] != "connect-timeout") or ("disconnect" not in c["fault"] and c["fault"] != "connect-timeout"))
+    ).filter(lambda c: c["kind"] == "plain" or (c["kind"] == "plain-nosuspend" and c["fault"] not in ("connect-timeout", "disconnect-hang")) or ("disconnect" not in c["fault"] and c["fault"] != "connect-timeout"))
 
 
 class BodyError(Exception):
@@ -181,6 +181,8 @@ class PlainTransport(env.RecordingTransport):
         self.disconnected += 1
         if self.suspends:
             await asyncio.sleep(0)
+        if self.fault == "disconnect-hang":
+            await asyncio.Event().wait()  # the link is stuck: only a cancellation of the leaving task ends this
         if "disconnect" in self.fault:
             raise TransportFailedError("injected disconnect fault")
 
@@ -383,6 +385,9 @@ def run_case(case: dict) -> Outcome:
                     # the first save may or may not have run yet: busy unless the file already holds a complete document
                     info["saver_busy_at_exit"] = state != "ok" or k < 8
                 at_exit_doc = registry_doc(gateway)
+                if fault == "disconnect-hang":
+                    # leaving the context will hang in disconnect; the application gives up after 5 s and cancels the task
+                    loop.call_later(5, me.cancel)
                 if fault == "cancel-body":
                     # the application task is cancelled for real (task.cancel(), asyncio.timeout, Ctrl-C under asyncio.run)
                     me.cancel()
@@ -391,7 +396,7 @@ def run_case(case: dict) -> Outcome:
                     raise _make_exc(case.get("body_exc", "BodyError"))
         except BaseException as err:  # noqa: BLE001
             caught = err
-        if fault == "cancel-body" and isinstance(caught, asyncio.CancelledError):
+        if fault in ("cancel-body", "disconnect-hang") and isinstance(caught, asyncio.CancelledError):
             me.uncancel()
         if at_exit_doc is None:
             at_exit_doc = registry_doc(gateway)
@@ -414,7 +419,7 @@ def run_case(case: dict) -> Outcome:
                 return fail("connect-fail:task-left", f"{where}: tasks left behind: {leftover!r}")
             return None
         # -- exception leaving the context
-        if fault == "cancel-body":
+        if fault in ("cancel-body", "disconnect-hang"):
             if not isinstance(caught, asyncio.CancelledError):
                 return fail(f"exit:{phase}:cancellation-became-{type(caught).__name__}", f"{where}: the body was cancelled but {caught!r} left the context")
         elif isinstance(caught, asyncio.CancelledError):
